@@ -1157,7 +1157,9 @@ void e2e_case(Choices& c, Report& r)
   {
     over_sink = std::make_shared<RecordingSink>(quill::PatternFormatterOptions{
       op.text, otp->full, ogmt ? quill::Timezone::GmtTime : quill::Timezone::LocalTime, multi});
-    sinks.push_back(over_sink);
+    // the backend walks the logger's sinks in order: the overriding sink before or after the plain one
+    if (want_plain && c.weighted({1, 1}) == 1) { sinks.insert(sinks.begin(), over_sink); r.label("override_sink_before_plain_sink"); }
+    else sinks.push_back(over_sink);
   }
 
   // ---- a second logger on the same sinks: the same options (the backend shares one formatter between loggers whose
